@@ -2,20 +2,20 @@ PROP = dict(
         coq="Properties/C19.v",
         workloads=[
             dict(name="gauge-history", go_test="TestC19", runner="C19",
-                 env=dict(quick=dict(VERIF_CASES=90), thorough=dict(VERIF_CASES=2000))),
+                 env=dict(quick=dict(VERIF_CASES=60), thorough=dict(VERIF_CASES=2000))),
             dict(name="lend-program", go_test="TestC19Lend", runner="C19",
-                 env=dict(quick=dict(VERIF_CASES=25), thorough=dict(VERIF_CASES=400))),
+                 env=dict(quick=dict(VERIF_CASES=20), thorough=dict(VERIF_CASES=400))),
             dict(name="split", go_test="TestC19Split", runner="C19-split",
-                 env=dict(quick=dict(VERIF_CASES=1500), thorough=dict(VERIF_CASES=60000, VERIF_EXHAUSTIVE=1))),
+                 env=dict(quick=dict(VERIF_CASES=1000), thorough=dict(VERIF_CASES=60000, VERIF_EXHAUSTIVE=1))),
         ],
         rule="gauge-history: case = a fresh rewards module on a fixture with 3 liquidity pools (their 3 swap-fee gauges), 6 farmers, a locker asset and a vault pair; "
-             "1-5 MsgCreateGauge through the msg router (deposit: 1, = epochs, epochs-1, divisible, with remainder, 2^63-1, 2^63, 2^64-1, >= 2^64, random; epochs 0,1,2,3,5,7,11; "
-             "durations 12h-1s,12h,24h,36h; start now/future/past; plain / master pools with valid and invalid child pools; unknown app / pool; under-funded creator), "
+             "1-5 MsgCreateGauge through the msg router (deposit: 1, = epochs, epochs-1, divisible, with remainder, 2^63-1, 2^63, 2^64-1, >= 2^64, 18-decimals-token amounts with allocations between 2^53 and 2^63 where binary64 is coarser than one unit, random; epochs 0,1,2,3,5,7,11; "
+             "durations 12h-1s,12h,24h,36h; start now/future/past; plain / master pools with valid and invalid child pools where none / some / all of the master pool's farmers farm in a child pool (histogram master:eligible-*); unknown app / pool; under-funded creator), "
              "0-4 ActivateExternalRewardsLockers / Vault (1 .. 9e18, 2^63-1, 2^63; 1-7 days), MsgFarm / MsgUnfarm, price changes incl. price removal, lockers, vaults, "
              "swap fees arriving, a second pool on a pair, donations, then 6-20 blocks = liquidity.EndBlocker + rewards.BeginBlocker with block time advancing by 6 s .. 4.6 days "
-             "(trigger, no trigger, skipped epochs); every 10th case directed at tiny allocations (class 1), at a swap-fee gauge with a failing fee transfer (class 2), at program rounding (class 3). "
+             "(trigger, no trigger, skipped epochs; programs of 2^63 whose Int64() panics: that program step is rolled back by its own ApplyFuncIfNoError while the epoch bookkeeping, the gauge payouts and the other program steps stay - histogram hook:*; gauges of >= 2^64 whose Uint64() panics in the epoch step: the whole hook is dropped); every 10th case directed at tiny allocations (class 1), at a swap-fee gauge with a failing fee transfer (former class 2, regression), at program rounding with 1e18..9e18 over 3-6 equal lockers (former class 3, regression). "
              "After every step the model state is diffed against all gauge / epoch / program records and the module balances of 5 denoms, over a BeginBlocker also every watched account's balance delta "
-             "and the implementation's own GetFarmingRewardsData result for the allocation that is due; predicates on the implementation: split sums, per-epoch cap, paid <= booked, share <= pro-rata*(1+1e-12), custody. "
+             "and the implementation's own GetFarmingRewardsData result for the allocation that is due; predicates on the implementation: split sums, per-epoch cap, paid <= booked, share <= pro-rata*(1+1e-12) and nothing paid when nobody has an eligible value, custody. "
              "non-trivial = some account was paid during the case; distinct by digest of operations and environment. "
              "lend-program: case = 1-2 ActivateExternalRewardsLend (reward denoms with oracle prices 1e-6 .. 30, 1-3 days, totals 1 .. 1e12, unknown pool, under-funded) on the C12 fixture world "
              "(one borrower farming in the master pool), donations, price changes, 4-8 BeginBlockers; same diff and predicates. "
@@ -26,14 +26,16 @@ PROP = dict(
                   "bank: plain accounts, one module account, sends fail only for insufficient funds",
                   "whole seconds for block times, start times and durations"],
         assumptions=["stable-mint external reward programs are absent (not modelled); lend programs: the borrowers' min(farmed value, borrowed value) and the reward asset's price are recorded environment values",
-                     "ESM / circuit breaker off for the apps of external programs (their early returns are not modelled)",
+                     "ESM / circuit breaker off for the apps of external programs (their early returns are not modelled; since fix b2d3331 such a return rolls the whole step back, the same path as the modelled Int64() panics)",
+                     "rewards.BeginBlocker as repaired by b2d3331: one outer ApplyFuncIfNoError, TriggerAndUpdateEpochInfos directly in it, each program distribution in its own ApplyFuncIfNoError (c19_hook_isolation)",
+                     "the model follows the repaired code of fixes/C19-F2 (SetGauge before continue) and fixes/C19-F3 (multiply before divide): against a /repo without these patches the check reports VIOLATION",
                      "the swap-fee distribution denom parameter does not change",
                      "c19_share is proved for farmers worth at least one unit (10^18 scaled) and outside class C19-F1; the general bound is c19_share_general",
-                     "custody is proved for histories that meet none of the classes C19-F2, C19-F3, C19-F4 (run_clean) and whose recorded fee transfers are non-negative (op_wf); inside the classes it is refuted by witness and on the real keepers; c19_program_safe gives an input condition (balances add up to at most the recorded total, 4 * owners * available <= 10^18) under which a program step is outside C19-F3"],
+                     "custody (c19_custody_gauges_programs) is proved with no class excluded for every history of gauges, swap-fee gauges and locker / vault programs whose recorded environment is well-formed (op_wf: fee transfers hand over non-negative coins; the owners' balances of a program are non-negative and add up to at most the recorded total - checked by the runner on every recorded population); with lend programs (c19_custody) for histories that do not meet class C19-F4 (run_clean); inside C19-F4 it is refuted by witness and on the real keepers"],
     )
 
 MANIFEST = dict(
-    level_text="Proved in Coq over an executable model of x/rewards (gauges incl. swap-fee gauges, epochs, external locker / vault / lend programs, one custody account, several denoms) and of the farming share formula with exact binary64 rounding: per-epoch allocations sum exactly to the deposit; each trigger books at most the epoch's allocation and pays at most what it books; cumulative distributed <= deposit over every history; farmer payout within 1e-12 of pro rata outside class C19-F1 (general bound for all inputs); custody >= undistributed remainder of all gauges and programs over every history that meets no known-finding class. Four defects contradict the property text, are proved as refutations with witnesses and reproduced on the real keepers on every run: C19-F1 (share rounding for tiny allocations), C19-F2 (swap-fee gauge re-distributes the same fees when the fee transfer fails, draining other gauges' funds), C19-F3 (external locker / vault program overdraws by rounding at amounts >= ~1e17), C19-F4 (lend reward program pays the reward's oracle VALUE as an AMOUNT: overdraws whenever price > days left). Tied to /repo by a differential run of the real msg handlers and rewards.BeginBlocker on every check.",
+    level_text="Proved in Coq over an executable model of x/rewards (gauges incl. swap-fee gauges, epochs, external locker / vault / lend programs, one custody account, several denoms; rewards.BeginBlocker with its per-step ApplyFuncIfNoError wrapping) and of the farming share formula with exact binary64 rounding: per-epoch allocations sum exactly to the deposit; each trigger books at most the epoch's allocation and pays at most what it books (swap-fee gauges included, no exception); cumulative distributed <= deposit over every history; farmer payout within 1e-12 of pro rata outside class C19-F1 (general bound for all inputs), nothing for a farmer without eligible value; a locker / vault program never books more than it has left; custody >= undistributed remainder of all gauges and programs over EVERY history of gauges and locker / vault programs, and over every history with lend programs that does not meet class C19-F4; a failing program step never touches the gauges or stops the hook. Two defects contradict the property text, are proved as refutations with witnesses and reproduced on the real keepers on every run: C19-F1 (share rounding for tiny allocations), C19-F4 (lend reward program pays the reward's oracle VALUE as an AMOUNT: overdraws whenever price > days left). Two more were repaired (patches fixes/C19-F2: swap-fee gauge re-paid the same fees when the fee transfer failed; fixes/C19-F3: locker / vault program overdrew by rounding shares before multiplying) and the model follows the repaired code; their witnesses are regression examples. Tied to /repo by a differential run of the real msg handlers and rewards.BeginBlocker on every check.",
     design_ref="DESIGN.md section 4 C19",
     level_note="Trusted: Coq kernel, extraction, OCaml runner, Go harness. Environment values (farmed values, fee transfers, populations) are recorded, not modelled. Stable-mint external programs not modelled. No axioms (Closed under the global context).",
     technique="Coq proof (exact sum, induction over epoch histories, rounding bounds over exact Dec and binary64 models) + model/implementation correspondence run",
